@@ -207,6 +207,7 @@ fn sweep(cx: &Cx, phase: &str, l: u64, acc: &mut Acc, f: &(dyn Fn(&Case, &mut Ac
             plan: plan.clone(),
             faults: vec![],
             tail: vec![],
+            segments: 0,
         },
         req: ReqSpec::get().with("range", range),
     };
